@@ -1,6 +1,7 @@
 package an
 
 import (
+	"fmt"
 	"strings"
 
 	"golang.org/x/tools/go/ssa"
@@ -197,10 +198,115 @@ func runC04(p *Prog, r *Report) {
 		}
 	}
 	if rp.OK() {
+		// the whole decision, compared with its specification over every combination of
+		// (fail-no-peers, peers left, this pipe carried the request, request outstanding,
+		// retry interval): an extra conjunct on one branch is as wrong as a missing one
+		var cancels, resends []*Ev
+		for _, e := range rp.Ev("call", "req.(*context).cancel") {
+			cancels = append(cancels, e)
+		}
+		for _, e := range rp.Ev("go", "req.(*context).resendMessage") {
+			resends = append(resends, e)
+		}
+		if len(resends) == 1 && len(cancels) >= 1 {
+			c := resends[0].Args[0] // the context the loop is at
+			pd := ""
+			for _, g := range resends[0].Guard {
+				atomSides(g, "==", func(x, y string) bool {
+					if x == c+".lastPipe" {
+						pd = y
+					} else if y == c+".lastPipe" {
+						pd = x
+					}
+					return false
+				})
+			}
+			dom := map[string][]int64{c + ".failNoPeers": {0, 1}, "len(recv.pipes)": {0, 1}, c + ".lastPipe": {1, 2}, pd: {1}, c + ".reqMsg": {0, 1}, c + ".resendTime": {0, 5}}
+			assume := []string{"next(range(recv.contexts))#0"}
+			fnpGone := func(env map[string]int64) bool { return env[c+".failNoPeers"] != 0 && env["len(recv.pipes)"] == 0 }
+			carriedOut := func(env map[string]int64) bool { return env[c+".lastPipe"] == env[pd] && env[c+".reqMsg"] != 0 }
+			if pd == "" {
+				r.Bad(R, "pipe-loss-exact", p.InstrPos(resends[0].In), "cannot identify the departing pipe in the guards of the re-send")
+			} else {
+				res := ComparePred(resends[0].In.Block(), dom, assume, func(env map[string]int64) bool {
+					return !fnpGone(env) && carriedOut(env) && env[c+".resendTime"] != 0
+				})
+				r.Check(res.OK && res.Undec == "", R, "pipe-loss-exact/resend", p.InstrPos(resends[0].In), "re-sent at once exactly when this pipe carried the outstanding request, retry is on, and fail-no-peers does not apply", "RemovePipe re-sends under the wrong condition (must be: not(failNoPeers and no peer left) and lastPipe == p and reqMsg != nil and resendTime != 0): "+res.Counter+res.Undec)
+				// cancel: the union of the cancel sites
+				okAll, msg := true, ""
+				got := map[string]bool{}
+				for _, ce := range cancels {
+					rc := ComparePredSet(ce.In.Block(), dom, assume)
+					if rc.Undec != "" {
+						okAll, msg = false, rc.Undec
+						break
+					}
+					for k := range rc.True {
+						got[k] = true
+					}
+				}
+				if okAll {
+					want := ComparePredEnum(dom, func(env map[string]int64) bool {
+						return fnpGone(env) || (carriedOut(env) && env[c+".resendTime"] == 0)
+					})
+					for k := range want {
+						if !got[k] {
+							okAll, msg = false, "not cancelled for "+k
+						}
+					}
+					for k := range got {
+						if !want[k] {
+							okAll, msg = false, "cancelled for "+k
+						}
+					}
+				}
+				r.Check(okAll, R, "pipe-loss-exact/cancel", p.InstrPos(cancels[0].In), "cancelled exactly when (failNoPeers and no peer left) or (this pipe carried the outstanding request and retry is off)", "RemovePipe cancels under the wrong condition: "+msg)
+			}
+		}
 		st := rp.Ev("store", "*.closed").Arg(0, "true")
 		r.Check(len(st) == 1 && len(st[0].Guard) == 0 && st.AllHeld(reqMu), R, "RemovePipe/marks-pipe-closed", st.Pos(p), "the departing pipe is marked closed unconditionally, under the lock", "RemovePipe does not mark the departing pipe closed on every path: sendCtx puts the dead pipe back on the ready list and the (re)transmission handed to it is lost: "+guardsOf(st))
 	}
 	q.ListRemoval(R, "RemovePipe/leaves-ready-list", rp, "recv.readyQ", reqMu, "RemovePipe does not take the departing pipe out of the ready list by shortening it: a dead pipe is scheduled and the (re)transmission handed to it is lost")
+	// `queued` says "this context is in sendQ": every change of the queue changes the flag of the
+	// element concerned on the same paths (a flag left true after the removal makes
+	// resendMessage skip the context for good; left false, the context is queued twice)
+	{
+		R2 := "C04.13/queued-flag"
+		r.Describe(R2, "req: the queued flag of a context and its membership in sendQ change together, on every path, under the lock")
+		n := 0
+		for _, fn := range p.Funcs {
+			if rel, _ := p.FuncRel(fn); rel != "protocol/req" {
+				continue
+			}
+			f := &F{q: q, fn: fn, Name: p.FuncName(fn), evs: p.Events(fn)}
+			flags := f.EvOwn("store", "*.queued")
+			for _, e := range f.EvOwn("store", "*.sendQ") {
+				n++
+				v := e.Args[0]
+				want := "false"
+				if strings.HasPrefix(v, "append(") && !strings.Contains(strings.SplitN(v, ",", 2)[0], "[") {
+					want = "true" // append(s.sendQ, c)
+				}
+				ok := false
+				for _, fl := range flags {
+					if fl.Args[0] != want {
+						continue
+					}
+					if evDominates(fl, e) {
+						ok = true
+					} else if evDominates(e, fl) {
+						if pass, _ := q.FollowedBy(Sel{e}, Sel{fl}); pass {
+							ok = true
+						}
+					}
+				}
+				key := fmt.Sprintf("%s/sendQ@%s", f.Name, want)
+				r.Check(ok, R2, key, p.InstrPos(e.In), "queued = "+want+" on every path through this change of sendQ", "sendQ is changed ("+v+") on a path on which the element's queued flag is not set to "+want+": flag and queue disagree afterwards (a context that is marked queued but is not in the queue is never transmitted again)")
+			}
+		}
+		r.Count("c04.sendq_changes", n)
+		r.Floor(R2, "c04.sendq_changes", 4)
+	}
 	q.ListRemoval("C04.5/answered-never-resent", "cancelSend/leaves-send-queue", q.Fn("C04.5/answered-never-resent", "protocol/req", "context", "cancelSend"), "recv.s.sendQ", reqMu, "cancelSend does not take the context out of the send queue by shortening it")
 	q.StoreClasses(R, "readyQ-writers", "protocol/req.socket.readyQ", map[string]string{"protocol/req.(*socket).send": "set", "protocol/req.(*pipe).sendCtx": "set", "protocol/req.(*socket).AddPipe": "set", "protocol/req.(*socket).RemovePipe": "set"})
 	sc := q.Fn(R, "protocol/req", "pipe", "sendCtx")
